@@ -65,6 +65,17 @@ def _spec_for(ctor, score_bias, correct_bias):
     return st.fixed_dictionaries({'ctor': st.just(ctor), 'kw': st.fixed_dictionaries(required, optional=optional)})
 
 
+_UNIT = st.fixed_dictionaries({
+    'ctor': st.just('unit_test'),
+    'kw': st.fixed_dictionaries({
+        'cases': st.lists(st.tuples(st.integers(0, 3), st.booleans()).map(list), min_size=1, max_size=4),
+        'score': st.sampled_from([None, '+10%', '20%', '+1', '+4', '30%', '0.5']),
+        'partial_credit': st.sampled_from([False, True, True, '5%', '+2', 'list']),
+    })})
+UNIT_STUDENT = 'def add(a, b):\n    return a + b\n'
+UNIT_ARGS = [[1, 2], [0, 0], [5, -5], [2.5, 2.5]]
+
+
 _SPEC_CACHE = {}
 
 
@@ -74,7 +85,10 @@ def spec_strategy(score_bias=False, correct_bias=False):
         ctors = list(CTORS)
         if correct_bias:
             ctors += ['set_correct', 'compliment', 'give_partial', 'explain', 'set_correct']
-        _SPEC_CACHE[key] = st.one_of([_spec_for(c, score_bias, correct_bias) for c in ctors])
+        options = [_spec_for(c, score_bias, correct_bias) for c in ctors]
+        if score_bias:
+            options.append(_UNIT)     # unit_test groups: muted+unscored children and a scored group object, as real graders have
+        _SPEC_CACHE[key] = st.one_of(options)
     return _SPEC_CACHE[key]
 
 
@@ -145,6 +159,17 @@ def build_feedback(spec):
     ctor, kw = spec['ctor'], dict(spec['kw'])
     if 'fields' in kw:
         kw['fields'] = dict(kw['fields'])
+    if ctor == 'unit_test':
+        from pedal.assertions.commands import unit_test
+        tests = []
+        for idx, ok in kw['cases']:
+            args = UNIT_ARGS[idx % len(UNIT_ARGS)]
+            expected = args[0] + args[1]
+            tests.append((list(args), expected if ok else expected + 1))
+        pc = kw['partial_credit']
+        if pc == 'list':
+            pc = ['%d%%' % (i + 1) for i in range(len(tests))]
+        return unit_test('add', *tests, score=kw['score'], partial_credit=pc)
     if ctor == 'Feedback':
         return Feedback(**kw)
     if ctor == 'subclass':
@@ -193,6 +218,12 @@ def replay_scenario(case):
     from pedal.core.report import MAIN_REPORT
     from pedal.core.commands import suppress
     MAIN_REPORT.full_clear()
+    if any(spec['ctor'] == 'unit_test' for spec in case['specs']):
+        from pedal.core.commands import contextualize_report
+        from pedal.sandbox.commands import run
+        import pedal.assertions  # noqa: registers the tool
+        contextualize_report(UNIT_STUDENT)
+        run()
     raised = []
     concrete = []
     sups_at = {}
